@@ -102,7 +102,7 @@ Check c07_stage_roundtrips : forall zlib recover p e x L, no_pred p -> (len x <=
 Print Assumptions c07_stage_roundtrips.
 
 (** LZW.  FULL STATEMENT, NOT PROVED (stretch goal of DESIGN 5b not reached):
-      Theorem c07_lzw_roundtrip : forall ec x, bytes_ok x = true -> len x <= MAX_DECOMPRESSED_SIZE ->
+      c07_lzw_roundtrip : forall ec x, bytes_ok x = true -> len x <= MAX_DECOMPRESSED_SIZE ->
         decode_lzw (lzw_encode ec x) ec = Some x.
     What is established instead: the statement holds by computation on inputs crossing every code-width
     boundary and the table reset for both EarlyChange values (below), and the decoder model is tied to the
